@@ -764,6 +764,37 @@ theorem incident_triplet_ids_ok_iff (g : Graph α) (v : Nat) (d : Direction) :
     (∃ r, g.incidentTripletIds v d = .ok r) ↔ ∀ e ∈ g.incidentEdges v d, e < g.edges.length :=
   tripletIdsGo_ok_iff g v d _
 
+theorem tripletIdsGo_ok_edges (g : Graph α) (v : Nat) (d : Direction) (es : List Nat)
+    (l : List (Nat × Nat × Nat)) (h : Graph.tripletIdsGo g v d es = .ok l) :
+    l.map (fun t => t.2.1) = es ∧ ∀ t ∈ l, t.1 = v := by
+  induction es generalizing l with
+  | nil => simp only [Graph.tripletIdsGo, Except.ok.injEq] at h; subst h; simp
+  | cons e r ih =>
+    simp only [Graph.tripletIdsGo] at h
+    cases h1 : g.incidentVertex e d with
+    | error x => simp [h1] at h
+    | ok t =>
+      cases h2 : Graph.tripletIdsGo g v d r with
+      | error x => simp [h1, h2] at h
+      | ok l' =>
+        simp only [h1, h2, Except.ok.injEq] at h
+        subst h
+        obtain ⟨i1, i2⟩ := ih l' h2
+        exact ⟨by simp [i1], by simpa using i2⟩
+
+/-- on ANY graph: the edge lookup inside `incident_triplet_attributes` cannot fail — the triplets come from
+`incident_triplet_ids`, which has looked every one of those edges up already — so its only errors are
+that one's `EdgeNotFound` and a `VertexNotFound` (the `?` after `get_edge` in that function is dead) -/
+theorem triplet_attributes_edge_lookup_never_fails (g : Graph α) (v : Nat) (d : Direction)
+    (l : List (Nat × Nat × Nat)) (h : g.incidentTripletIds v d = .ok l) :
+    ∀ t ∈ l, ∃ ed, g.getEdge t.2.1 = .ok ed := by
+  intro t ht
+  have hall := (tripletIdsGo_ok_iff g v d (g.incidentEdges v d)).1 ⟨l, h⟩
+  have hmap := (tripletIdsGo_ok_edges g v d _ l h).1
+  have : t.2.1 ∈ g.incidentEdges v d := by rw [← hmap]; exact List.mem_map.2 ⟨t, ht, rfl⟩
+  have hlt := hall _ this
+  exact ⟨g.edges[t.2.1], by rw [get_edge_any, List.getElem?_eq_getElem hlt]⟩
+
 /-- `incident_triplet_attributes` of a listed network: for each listed edge at `v` in the direction of
 travel, (the vertex `v`, the edge, the vertex at its far end), with their listed data -/
 theorem tripletAttrsGo_listed (es : List (Edge α)) (vs : List (Vertex α)) (nV : Nat) (h : RowIds es)
